@@ -104,7 +104,58 @@ fn check_independent(items: &[&str], reqs: &[Req], l: &mut Local) {
     }
 }
 
+/// Request-type options next to `redirect=` / `redirect-rule=`: a redirect rule is an ordinary
+/// network rule as far as request types go - a list of positive types is exhaustive, negated types
+/// (or none) mean every network type (not `document`) but the negated ones. Lists that mix the two
+/// polarities are left out (their meaning is not pinned). Expectation written from the option
+/// semantics; the real matcher is not consulted.
+fn check_type_options(idx: u64, l: &mut Local) {
+    use vh::alpha::{type_option_lists, TYPE_REQS};
+    let lists: Vec<_> = type_option_lists().into_iter().filter(|(_, p, n)| p.is_empty() || n.is_empty()).collect();
+    let (opts, pos, neg) = &lists[(idx / 4) as usize % lists.len()];
+    let option = if idx & 1 == 0 { "redirect=a" } else { "redirect-rule=a:5" };
+    let rule = match (opts.is_empty(), idx & 2 == 0) {
+        (true, _) => format!("/ad.js${}", option),
+        (false, true) => format!("/ad.js${},{}", option, opts),
+        (false, false) => format!("/ad.js${},{}", opts, option),
+    };
+    let e = vh::netsweep::build_engine(&[rule.as_str()], &[], false, true);
+    l.states += 1;
+    let data_url = vh::net::data_url("image/gif", "GIF89a");
+    for (ty, c) in TYPE_REQS {
+        let req = match adblock::request::Request::new("https://x.com/ad.js", "https://y.com/", ty) {
+            Ok(r) => r,
+            Err(_) => continue,
+        };
+        l.evaluations += 1;
+        l.transitions += 1;
+        l.compared += 1;
+        let applies = if pos.is_empty() { c != "document" && !neg.contains(&c) } else { pos.contains(&c) };
+        let exp = if applies { Some(data_url.clone()) } else { None };
+        let got = vh::util::catch(|| {
+            let r = e.check_network_request(&req);
+            (r.redirect, r.matched)
+        });
+        if applies {
+            l.nontrivial += 1;
+        }
+        l.hist(if applies { "type-options:applies" } else { "type-options:does-not-apply" });
+        let exp_matched = applies && idx & 1 == 0;
+        if got.as_ref().ok() != Some(&(exp.clone(), exp_matched)) {
+            l.mismatch(vh::Mismatch {
+                sig: format!("c13.type-options.{}", if applies { "missing-redirect" } else { "redirect-outside-the-listed-types" }),
+                what: format!("rule {:?} request type {}: expected redirect {:?} matched {}, engine gave {:?}", rule, ty, exp, exp_matched, got),
+                case: serde_json::json!({"type_options_index": idx}),
+                size: rule.len() as u64,
+            });
+        }
+    }
+}
+
 fn replay(case: &Value, l: &mut Local) {
+    if let Some(i) = case["type_options_index"].as_u64() {
+        return check_type_options(i, l);
+    }
     if case["independent"].as_bool() == Some(true) {
         let rules: Vec<String> = case["rules"].as_array().map(|a| a.iter().filter_map(|v| v.as_str().map(|s| s.to_string())).collect()).unwrap_or_default();
         let items: Vec<&str> = rules.iter().map(|s| s.as_str()).collect();
@@ -123,6 +174,9 @@ fn check(ctx: &Ctx) -> i32 {
     ctx.bound("rule_pool", pool.len());
     ctx.bound("requests", reqs.len());
     ctx.bound("resource_stores", 2);
+    let ntl = vh::alpha::type_option_lists().into_iter().filter(|(_, p, n)| p.is_empty() || n.is_empty()).count() as u64;
+    ctx.bound("type_option_lists", ntl);
+    ctx.par_range("type options", ntl * 4, 8, |i, l| check_type_options(i, l));
     let n = count_arrangements_upto(pool.len() as u64, 3);
     ctx.par_range("lists<=3", n, 16, |i, l| {
         let mut idx = vec![];
@@ -156,7 +210,7 @@ fn check(ctx: &Ctx) -> i32 {
     }
     ctx.finish(
         "model_checking",
-        "all ordered lists without repetition of <= 3 rules (containing at least one redirect rule) of the 48-rule redirect alphabet, each built into a real engine, once with the standard resource store (a + alias, b, permissioned, fn/javascript, template; 'missing' absent) and once with an empty store, against 7 requests; thorough adds every ordered list of 4 rules (standard store); non-trivial = at least one rule matches; every verdict (redirect, matched, important, exception) compared with the reference; ties are set-valued",
+        "all ordered lists without repetition of <= 3 rules (containing at least one redirect rule) of the 56-rule redirect alphabet, each built into a real engine, once with the standard resource store (a + alias, b, permissioned, fn/javascript, template, a name with the priority separator, four deliberately rejected colliding resources; 'missing' absent) and once with an empty store, against 7 requests; thorough adds every ordered list of 4 rules (standard store); plus every pure-positive / pure-negated list of request-type options (of the menu shared with C14) next to redirect= and redirect-rule= x 16 request type strings, expectation written from the option semantics; non-trivial = at least one rule matches; every verdict (redirect, matched, important, exception) compared with the reference; ties are set-valued",
         &["an exception naming the same resource with a different priority suffix is Unspecified", "whether a redirect exception also unblocks the request is Unspecified"],
     )
 }
